@@ -196,9 +196,18 @@ def _fold_kin(args):
         R.opaque_weights(ev)
         o, elems = R.esf_of(ev, runner, obs)
         R.fold_point_result(ev, elems[0])
-        return sweep.Outcome(cell, "ok", wall=time.time() - t0)
+        out = sweep.Outcome(cell, "ok", wall=time.time() - t0)
     except (A.Undecided, S.Raised) as e:
-        return sweep.classify_exception(proj, cell, e, t0)
+        out = sweep.classify_exception(proj, cell, e, t0)
+    # a tolerance test (isclose / allclose) inside a rejection guard: the guard no longer rejects exactly the complement of the domain
+    tol = []
+    for t in getattr(ev, "tolerance_tests", []) if "ev" in locals() else []:
+        node = t[0]
+        if node is not None and R.in_rejection_guard(node) is not None:
+            site, construct, stmt = sweep.locate(proj, node)
+            tol.append(f"{site} `{stmt[:80]}` in {construct}")
+    out.extra = dict(tolerance_in_guard=sorted(set(tol)))
+    return out
 
 
 def check_kin(rep, proj, tier):
@@ -233,6 +242,10 @@ def check_kin(rep, proj, tier):
             why = f"internal {o.etype} ({o.msg}) at `{o.stmt}` instead of an explicit rejection"
             construct = o.construct
         bad_groups.setdefault((construct, why.split("(")[0].strip() if "internal" not in why else why), []).append(label)
+    softened = sorted({t for o in outs for t in ((o.extra or {}).get("tolerance_in_guard", []) if isinstance(o.extra, dict) else [])})
+    for t in softened:
+        rep.bad("C16.kin", t.split(" ")[0], "kinematic guard", f"{t}: the rejection is decided through a tolerance test, so points outside the documented domain but within the "
+                "tolerance of its edge (numpy's absolute tolerance 1e-8 does not scale with the grid) are accepted and computed instead of rejected", key="tolerance|" + t[:60])
     rep.ok("C16.kin", "src/yadism/esf/esf.py", "kinematic guards", f"{n_ok} of {len(cases)} orderings decided as documented")
     for (construct, why), labels in sorted(bad_groups.items()):
         rep.bad("C16.kin", "", construct, f"{why}: {len(labels)} case(s), e.g. {labels[0]}; {labels[-1]}", key=why[:60],
